@@ -203,4 +203,160 @@ example : (run { invert := true, state := false, hw := true }
 example : run {} [.add true 2 0, .report true true, .to 3] = none ∧
     run {} [.add true 2 0, .report true true, .to 1, .wake] = none := by decide
 
+
+/-! ## Switch device events (`Dev` in `Model/Switch.lean`) -/
+
+/-- the posts a history of handler calls should produce when there is no ignore window: one per real change, in order -/
+def changesOf : List DOp → List DObs
+  | [] => []
+  | .change st :: r => .post st :: changesOf r
+  | _ :: r => changesOf r
+
+/-- **events_once.**  Without an ignore window, along every history the device posts its configured events for the new
+state exactly once per real change reported by the controller, in order, and nothing else ever posts (time passing
+posts nothing; no window timer exists).  With `untimed_once_per_change`/`duplicate_silent` (the controller calls the
+device's handler once per real change and never for a duplicate) this is "events once per real change". -/
+theorem events_once (ops : List DOp) : ∀ (d : Dev) (r : Dev × List DObs), d.window = 0 → d.clear = none →
+    drun d ops = some r → r.2 = changesOf ops ∧ r.1.window = 0 ∧ r.1.clear = none := by
+  induction ops with
+  | nil => intro d r hw hc h; simp [drun] at h; subst h; exact ⟨rfl, hw, hc⟩
+  | cons op ops ih =>
+    intro d r hw hc h
+    obtain ⟨r1, r2, h1, h2, rfl⟩ := drun_cons h
+    have k : r1.2 = changesOf [op] ∧ r1.1.window = 0 ∧ r1.1.clear = none := by
+      cases op with
+      | change st =>
+        simp only [dstep, hw] at h1
+        split at h1
+        · cases h1
+        · simp at h1; subst h1; exact ⟨rfl, rfl, hc⟩
+      | to t =>
+        simp only [dstep] at h1
+        split at h1
+        · injection h1 with h1; subst h1; exact ⟨rfl, hw, hc⟩
+        · cases h1
+      | pass => simp [dstep, hc] at h1
+    obtain ⟨a, b, c⟩ := ih r1.1 r2 k.2.1 k.2.2 h2
+    refine ⟨?_, b, c⟩
+    show r1.2 ++ r2.2 = changesOf (op :: ops)
+    rw [k.1, a]
+    cases op <;> rfl
+
+/-- **recycle_window.**  With an ignore window `w > 0`, in every state reachable from a fresh device:
+(a) a change while no window is open posts the new state's events once and opens a window that ends exactly `w` later;
+(b) a change while a window is open posts nothing;
+(c) the window's end is never slept through, and when `_recycle_passed` runs it is exactly at that instant; it closes the
+window and posts the current state's events iff the switch is then in the other state than the one that opened the window
+(the catch-up post), nothing otherwise;
+(d) hence at most one post per window: while a window is open and its end has not run, nothing at all is posted;
+(e) whenever no window is open, the last post is the current state. -/
+theorem recycle_window (w : Nat) (st0 : Bool) (ops0 : List DOp) (d : Dev) (tr0 : List DObs) (hw : w ≠ 0)
+    (hreach : drun { window := w, state := st0, posted := st0 } ops0 = some (d, tr0)) :
+    (d.window = w) ∧
+    (∀ st r, d.clear = none → dstep d (.change st) = some r →
+        r.2 = [.post st] ∧ r.1.clear = some (d.now + w) ∧ r.1.state = st) ∧
+    (∀ st r c, d.clear = some c → dstep d (.change st) = some r → r.2 = [] ∧ r.1.clear = some c ∧ r.1.state = st) ∧
+    (∀ r, dstep d .pass = some r → d.clear = some d.now ∧ r.1.clear = none ∧
+        r.2 = (if d.state = d.opened then [] else [.post d.state])) ∧
+    (∀ c, d.clear = some c → ∀ ops r, (∀ op ∈ ops, op ≠ .pass) → drun d ops = some r → r.2 = [] ∧ r.1.clear = some c) ∧
+    (d.clear = none → d.posted = d.state) := by
+  -- reachable states keep the window size and the invariant
+  have key : ∀ (ops : List DOp) (d0 : Dev) (r : Dev × List DObs), DInv d0 → d0.window = w → drun d0 ops = some r →
+      DInv r.1 ∧ r.1.window = w := by
+    intro ops
+    induction ops with
+    | nil => intro d0 r i hw0 h; simp [drun] at h; subst h; exact ⟨i, hw0⟩
+    | cons op ops ih =>
+      intro d0 r i hw0 h
+      obtain ⟨r1, r2, h1, h2, rfl⟩ := drun_cons h
+      have i1 := dstep_inv d0 op r1 i h1
+      have w1 : r1.1.window = w := by
+        cases op with
+        | change st =>
+          simp only [dstep] at h1
+          split at h1
+          · cases h1
+          · split at h1
+            · injection h1 with h1; subst h1; exact hw0
+            · cases hc : d0.clear <;> (simp only [hc] at h1; injection h1 with h1; subst h1; exact hw0)
+        | to t =>
+          simp only [dstep] at h1
+          split at h1
+          · injection h1 with h1; subst h1; exact hw0
+          · cases h1
+        | pass =>
+          simp only [dstep] at h1
+          cases hc : d0.clear with
+          | none => simp [hc] at h1
+          | some c =>
+            simp only [hc] at h1
+            split at h1
+            · split at h1 <;> (injection h1 with h1; subst h1; exact hw0)
+            · cases h1
+      exact ih r1.1 r2 i1 w1 h2
+  obtain ⟨i, hdw⟩ := key ops0 _ (d, tr0) ⟨by simp, by simp, by simp, by simp⟩ rfl hreach
+  have hdw' : d.window = w := hdw
+  have hw' : d.window ≠ 0 := by rw [hdw']; exact hw
+  refine ⟨hdw, ?_, ?_, ?_, ?_, i.closed_sync⟩
+  · intro st r hc h
+    simp only [dstep, hc] at h
+    split at h
+    · cases h
+    all_goals first
+      | ((try rw [if_neg hw'] at h); injection h with h; subst h; exact ⟨rfl, by simp [hdw'], rfl⟩)
+      | (rename_i hz; exact absurd hz hw')
+  · intro st r c hc h
+    simp only [dstep, hc] at h
+    split at h
+    · cases h
+    all_goals first
+      | ((try rw [if_neg hw'] at h); injection h with h; subst h; exact ⟨rfl, rfl, rfl⟩)
+      | (rename_i hz; exact absurd hz hw')
+  · intro r h
+    simp only [dstep] at h
+    cases hc : d.clear with
+    | none => simp [hc] at h
+    | some c =>
+      simp only [hc] at h
+      split at h
+      · rename_i hle
+        have : c = d.now := Nat.le_antisymm hle (i.clear_ge c hc)
+        subst this
+        split at h
+        · rename_i he; injection h with h; subst h; exact ⟨rfl, rfl, by simp [he]⟩
+        · rename_i he; injection h with h; subst h; exact ⟨rfl, rfl, by simp [he]⟩
+      · cases h
+  · intro c hc ops r hops h
+    have key2 : ∀ (ops : List DOp) (d1 : Dev) (r : Dev × List DObs), d1.window ≠ 0 → d1.clear = some c →
+        (∀ op ∈ ops, op ≠ .pass) → drun d1 ops = some r → r.2 = [] ∧ r.1.clear = some c := by
+      intro ops
+      induction ops with
+      | nil => intro d1 r _ hc1 _ h; simp [drun] at h; subst h; exact ⟨rfl, hc1⟩
+      | cons op ops ih =>
+        intro d1 r hwd hc1 hops h
+        obtain ⟨r1, r2, h1, h2, rfl⟩ := drun_cons h
+        have k : r1.2 = [] ∧ r1.1.clear = some c ∧ r1.1.window ≠ 0 := by
+          cases op with
+          | change st =>
+            simp only [dstep, hc1] at h1
+            split at h1
+            · cases h1
+            all_goals first
+              | ((try rw [if_neg hwd] at h1); injection h1 with h1; subst h1; first | exact ⟨rfl, rfl, hwd⟩ | exact ⟨rfl, hc1, hwd⟩)
+              | (rename_i hz; exact absurd hz hwd)
+          | to t =>
+            simp only [dstep] at h1
+            split at h1
+            · injection h1 with h1; subst h1; exact ⟨rfl, hc1, hwd⟩
+            · cases h1
+          | pass => exact absurd rfl (hops .pass (by simp))
+        obtain ⟨a, b⟩ := ih r1.1 r2 k.2.2 k.2.1 (fun o ho => hops o (by simp [ho])) h2
+        exact ⟨by simp [k.1, a], b⟩
+    exact key2 ops d r hw' hc hops h
+
+/-- the window model is exercised: a bounce inside the window is swallowed, the window closes with a catch-up post -/
+example : (drun { window := 2, state := false, posted := false }
+    [.change true, .to 1, .change false, .to 2, .pass, .change true, .to 3, .change false, .change true, .to 4, .pass]).map (·.2)
+    = some [.post true, .post false, .post true] := by decide
+
 end MpfVerif.C03
